@@ -21,7 +21,9 @@ Inductive hkind :=
 | KHeartbeat   (* RemoteNode: nmt.on_heartbeat     on 0x700 + id *)
 | KEmcy        (* RemoteNode: emcy.on_emcy         on 0x80 + id *)
 | KNmt         (* both:       nmt.on_command       on 0 *)
-| KSdoReq.     (* LocalNode:  sdo.on_request       on 0x600 + id *)
+| KSdoReq      (* LocalNode:  sdo.on_request       on 0x600 + id *)
+| KSdoExtra (k : Z).  (* RemoteNode: sdo_channels[k].on_response of the k-th channel created by
+                         add_sdo (k = 1, 2, ...), on that channel's tx COB-ID *)
 
 Record nobj := { o_uid : Z; o_nid : Z; o_local : bool }.
 
@@ -33,6 +35,7 @@ Inductive handler :=
 Definition hkind_eqb (a b : hkind) : bool :=
   match a, b with
   | KSdoResp, KSdoResp | KHeartbeat, KHeartbeat | KEmcy, KEmcy | KNmt, KNmt | KSdoReq, KSdoReq => true
+  | KSdoExtra a, KSdoExtra b => a =? b
   | _, _ => false
   end.
 
@@ -97,17 +100,39 @@ Definition unsubscribe (c : Z) (h : option handler) (m : smap) : res smap :=
   end.
 
 (* ------------------------------------------------------------------ nodes *)
+(* the channels appended to RemoteNode.sdo_channels by add_sdo, as their tx COB-IDs in creation
+   order; the k-th of them (k from 1; sdo_channels[0] is the constructor's default channel) owns
+   the callback HNode o (KSdoExtra k) *)
+Fixpoint extras_from (o : nobj) (k : Z) (txs : list Z) : list (Z * handler) :=
+  match txs with
+  | [] => []
+  | tx :: r => (tx, HNode o (KSdoExtra k)) :: extras_from o (k + 1) r
+  end.
+
 (* (can_id, callback) pairs in the order associate_network subscribes and remove_network
-   unsubscribes them (one SDO channel, the default one created by the constructor) *)
-Definition node_handlers (o : nobj) : list (Z * handler) :=
+   unsubscribes them: for sdo in self.sdo_channels (default channel, then the added ones), heartbeat,
+   EMCY, NMT; [txs] = tx COB-IDs of the added channels of this object *)
+Definition node_handlers (txs : list Z) (o : nobj) : list (Z * handler) :=
   if o_local o then
     [(1536 + o_nid o, HNode o KSdoReq); (0, HNode o KNmt)]
   else
-    [(1408 + o_nid o, HNode o KSdoResp); (1792 + o_nid o, HNode o KHeartbeat);
-     (128 + o_nid o, HNode o KEmcy); (0, HNode o KNmt)].
+    (1408 + o_nid o, HNode o KSdoResp) :: extras_from o 1 txs ++
+    [(1792 + o_nid o, HNode o KHeartbeat); (128 + o_nid o, HNode o KEmcy); (0, HNode o KNmt)].
 
-Definition associate (o : nobj) (m : smap) : smap :=
-  fold_left (fun m ch => subscribe (fst ch) (snd ch) m) (node_handlers o) m.
+Definition associate (txs : list Z) (o : nobj) (m : smap) : smap :=
+  fold_left (fun m ch => subscribe (fst ch) (snd ch) m) (node_handlers txs o) m.
+
+(* per node object: the added SDO channels (mutable attribute sdo_channels[1:] of the object) *)
+Definition cmap := list (nobj * list Z).
+
+Fixpoint txs_of (o : nobj) (cm : cmap) : list Z :=
+  match cm with [] => [] | (o', l) :: r => if nobj_eqb o o' then l else txs_of o r end.
+
+Fixpoint add_tx (o : nobj) (tx : Z) (cm : cmap) : cmap :=
+  match cm with
+  | [] => [(o, [tx])]
+  | (o', l) :: r => if nobj_eqb o o' then (o', l ++ [tx]) :: r else (o', l) :: add_tx o tx r
+  end.
 
 (* remove_network: the unsubscribe calls in order; the first exception propagates and leaves the
    earlier removals in place *)
@@ -171,10 +196,11 @@ Definition periodic_task (can_id : Z) (data : list Z) (period : Z) (remote : boo
   let m := mk_frame can_id data remote in (m, [(m, period)]).
 
 (* ------------------------------------------------------------------ Network state and operations *)
-Record net := { subs : smap; nodes : nmap; scanned : list Z }.
+Record net := { subs : smap; nodes : nmap; scanned : list Z; chans : cmap }.
 
 (* Network.__init__: subscribe(lss.LSS_RX_COBID, lss.on_message_received) *)
-Definition init_net : net := {| subs := subscribe LSS_RX_COBID HLss []; nodes := []; scanned := [] |}.
+Definition init_net : net :=
+  {| subs := subscribe LSS_RX_COBID HLss []; nodes := []; scanned := []; chans := [] |}.
 
 (* one invocation callback(can_id, data, timestamp) *)
 Definition delivery := (handler * Z * list Z * Z)%type.
@@ -185,7 +211,7 @@ Definition notify (c : Z) (data : list Z) (ts : Z) (s : net) : net * list delive
              | Some l => map (fun h => (h, c, data, ts)) l
              | None => []
              end in
-  ({| subs := subs s; nodes := nodes s; scanned := scan_step (scanned s) c |}, log).
+  ({| subs := subs s; nodes := nodes s; scanned := scan_step (scanned s) c; chans := chans s |}, log).
 
 (* MessageListener.on_message_received *)
 Definition listener (f : frame) (s : net) : net * list delivery :=
@@ -195,12 +221,13 @@ Definition listener (f : frame) (s : net) : net * list delivery :=
 Definition setitem (o : nobj) (s : net) : net * res unit :=
   let n := o_nid o in
   let '(m1, st) := match lookup_node n (nodes s) with
-                   | Some old => unsub_seq (node_handlers old) (subs s)
+                   | Some old => unsub_seq (node_handlers (txs_of old (chans s)) old) (subs s)
                    | None => (subs s, Ok tt)
                    end in
   match st with
-  | Ok _ => ({| subs := associate o m1; nodes := set_node n o (nodes s); scanned := scanned s |}, Ok tt)
-  | e => ({| subs := m1; nodes := nodes s; scanned := scanned s |}, e)
+  | Ok _ => ({| subs := associate (txs_of o (chans s)) o m1; nodes := set_node n o (nodes s);
+                scanned := scanned s; chans := chans s |}, Ok tt)
+  | e => ({| subs := m1; nodes := nodes s; scanned := scanned s; chans := chans s |}, e)
   end.
 
 (* Network.__delitem__(node_id) *)
@@ -208,12 +235,26 @@ Definition delitem (n : Z) (s : net) : net * res unit :=
   match lookup_node n (nodes s) with
   | None => (s, Err E_KEY)
   | Some old =>
-      let '(m1, st) := unsub_seq (node_handlers old) (subs s) in
+      let '(m1, st) := unsub_seq (node_handlers (txs_of old (chans s)) old) (subs s) in
       match st with
-      | Ok _ => ({| subs := m1; nodes := del_node n (nodes s); scanned := scanned s |}, Ok tt)
-      | e => ({| subs := m1; nodes := nodes s; scanned := scanned s |}, e)
+      | Ok _ => ({| subs := m1; nodes := del_node n (nodes s); scanned := scanned s; chans := chans s |}, Ok tt)
+      | e => ({| subs := m1; nodes := nodes s; scanned := scanned s; chans := chans s |}, e)
       end
   end.
+
+(* node.has_network(): the object is associated, i.e. it is the one registered under its id
+   (associate_network / remove_network are only called by __setitem__ / __delitem__) *)
+Definition registered (o : nobj) (s : net) : bool :=
+  match lookup_node (o_nid o) (nodes s) with Some o' => nobj_eqb o o' | None => false end.
+
+(* RemoteNode.add_sdo(rx_cobid, tx_cobid): a new SdoClient appended to sdo_channels and, when the
+   node has a network, subscribed at once.  LocalNode has no add_sdo (AttributeError). *)
+Definition add_sdo (o : nobj) (rx tx : Z) (s : net) : net * res unit :=
+  if o_local o then (s, Err E_ATTR)
+  else
+    let k := Z.of_nat (length (txs_of o (chans s))) + 1 in
+    ({| subs := if registered o s then subscribe tx (HNode o (KSdoExtra k)) (subs s) else subs s;
+        nodes := nodes s; scanned := scanned s; chans := add_tx o tx (chans s) |}, Ok tt).
 
 Inductive op :=
 | OSub (c : Z) (u : Z)                         (* net.subscribe(c, user_callback[u]) *)
@@ -222,9 +263,11 @@ Inductive op :=
 | ODel (n : Z)                                 (* del net[n] *)
 | ONotify (c : Z) (data : list Z) (ts : Z)     (* net.notify(c, data, ts) *)
 | ORecv (f : frame)                            (* net.listeners[0].on_message_received(msg) *)
-| OScanReset.                                  (* net.scanner.reset() *)
+| OScanReset                                   (* net.scanner.reset() *)
+| OAddSdo (o : nobj) (rx tx : Z).              (* obj.add_sdo(rx, tx) *)
 
-Definition with_subs (s : net) (m : smap) : net := {| subs := m; nodes := nodes s; scanned := scanned s |}.
+Definition with_subs (s : net) (m : smap) : net :=
+  {| subs := m; nodes := nodes s; scanned := scanned s; chans := chans s |}.
 
 Definition lift_unit (r : res unit) : res (list delivery) :=
   match r with Ok _ => Ok [] | Err k => Err k | Abort k => Abort k end.
@@ -242,7 +285,8 @@ Definition step (o : op) (s : net) : net * res (list delivery) :=
   | ODel n => let '(s', r) := delitem n s in (s', lift_unit r)
   | ONotify c data ts => let '(s', l) := notify c data ts s in (s', Ok l)
   | ORecv f => let '(s', l) := listener f s in (s', Ok l)
-  | OScanReset => ({| subs := subs s; nodes := nodes s; scanned := [] |}, Ok [])
+  | OScanReset => ({| subs := subs s; nodes := nodes s; scanned := []; chans := chans s |}, Ok [])
+  | OAddSdo o rx tx => let '(s', r) := add_sdo o rx tx s in (s', lift_unit r)
   end.
 
 Fixpoint run_ops (ops : list op) (s : net) : net * list (res (list delivery)) :=
@@ -257,7 +301,10 @@ Definition log_of (r : res (list delivery)) : list delivery :=
 
 (* ------------------------------------------------------------------ runner for the correspondence *)
 Definition hk_code (k : hkind) : Z :=
-  match k with KSdoResp => 0 | KHeartbeat => 1 | KEmcy => 2 | KNmt => 3 | KSdoReq => 4 end.
+  match k with KSdoResp => 0 | KHeartbeat => 1 | KEmcy => 2 | KNmt => 3 | KSdoReq => 4 | KSdoExtra _ => 5 end.
+
+Definition hk_val (k : hkind) : list val :=
+  match k with KSdoExtra i => [VZ 5; VZ i] | _ => [VZ (hk_code k)] end.
 
 Definition oval (o : nobj) : list val := [VZ (o_uid o); VZ (o_nid o); VBool (o_local o)].
 
@@ -265,7 +312,7 @@ Definition hval (h : handler) : val :=
   match h with
   | HUser u => VL [VZ 0; VZ u]
   | HLss => VL [VZ 1]
-  | HNode o k => VL (VZ 2 :: oval o ++ [VZ (hk_code k)])
+  | HNode o k => VL (VZ 2 :: oval o ++ hk_val k)
   end.
 
 Definition dval (d : delivery) : val :=
@@ -278,7 +325,8 @@ Definition fval (f : frame) : val :=
 Definition dump (s : net) : val :=
   VL [VL (map (fun cl => VL [VZ (fst cl); VL (map hval (snd cl))]) (subs s));
       VL (map (fun no => VL (VZ (fst no) :: oval (snd no))) (nodes s));
-      VL (map VZ (scanned s))].
+      VL (map VZ (scanned s));
+      VL (map (fun ol => VL (oval (fst ol) ++ [VL (map VZ (snd ol))])) (chans s))].
 
 Inductive net_case :=
 | CHist (ops : list op)
